@@ -75,6 +75,9 @@ def corpus():
           mk_make(e, n, [], [[[0.0, 1.0], [2.0, 3.0], [4.0, 5.0]]], ["a"], ("northing", "easting"), None, False, "transposed-data"),
           mk_table(("y", "x"), e, n, [("up", up)], [("a", d)], "dataset", "ne", "corpus-table"),
           mk_table(("y", "x"), e, n, [], [("scalars", d)], "unnamed", "en", "corpus-unnamed-dataarray"),
+          # a sheared "grid" at map-projection magnitudes: each row within numpy.allclose's tolerance of the NEXT one, the last far from the first
+          mk_make([[524288.0 + x + 2.0 * i for x in (0.0, 10.0, 20.0)] for i in range(6)], [[4194304.0 + 10.0 * i] * 3 for i in range(6)], [],
+                  [[[float(3 * i + j) for j in range(3)] for i in range(6)]], ["a"], ("northing", "easting"), None, False, "bad-drift"),
           # a DataArray whose name is the integer 0 (a column label of a header-less table): it HAS a name
           mk_table(("y", "x"), e, n, [], [("n0", d)], "named-int", "en", "corpus-dataarray-named-0"),
           mk_table(("northing", "easting"), e, n, [("up", up)], [("n0", d)], "named-int", "ne", "corpus-dataarray-named-0")]
@@ -123,7 +126,7 @@ def generate(rng, tier):
         elif u < 0.8:
             cs.append({"fn": "from1d", "kind": "from1d", "args": [e, no], "op": f"from1d {C.enc(e)} {C.enc(no)}"})
         else:   # one inconsistency
-            k = rng.choice(["notmesh-e", "notmesh-n", "mixed", "names", "names-string", "exnames", "shape", "extrashape", "tiny-perturb"])
+            k = rng.choice(["notmesh-e", "notmesh-n", "mixed", "names", "names-string", "exnames", "shape", "extrashape", "tiny-perturb", "drift", "drift"])
             E2, N2, e2, n2, data2, names2, extras2, exn2 = E, N, e, no, data, names, extras, exnames
             two_d = True
             if k == "notmesh-e" and nn >= 2:
@@ -132,6 +135,16 @@ def generate(rng, tier):
             elif k == "notmesh-n" and ne >= 2:
                 N2 = [list(r) for r in N]
                 N2[rng.randrange(nn)][rng.randrange(1, ne)] += rng.choice([0.5, -1.0, 1e-3])
+            elif k == "drift" and nn >= 4 and ne >= 2:
+                # a slightly rotated / sheared "grid" at map-projection magnitudes: from one row to the next the eastings move by less than
+                # numpy.allclose's tolerance, but from the first row to the last by far more - not a meshgrid
+                off = 524288.0      # 2^19: coordinates of order 5e5 (UTM); allclose tolerates about 5 there
+                step = 2.0
+                E2 = [[off + x + step * i for x in e] for i in range(nn)]
+                N2 = [[off * 8 + y for _ in e] for y in no]
+                if step * (nn - 1) <= 1e-5 * (off + max(abs(x) for x in e)) + 1e-8:      # (not enough rows to leave the tolerance: skip)
+                    E2 = [list(r) for r in E]
+                    E2[1][0] += 0.5
             elif k == "tiny-perturb" and nn >= 2:
                 E2 = [list(r) for r in E]
                 E2[rng.randrange(1, nn)][rng.randrange(ne)] += 1e-12     # within allclose: accepted, regularised
@@ -219,6 +232,19 @@ def impl(case):
             g = xr.Dataset({k: (tuple(dims), _A(v, "v" + str(k), case)) for k, v in vars_}, coords=coords)
         else:
             g = xr.DataArray(_A(vars_[0][1], "v0", case), coords=coords, dims=tuple(dims), name=None if form == "unnamed" else (int(vars_[0][0][1:]) if form == "named-int" else vars_[0][0]))
+        # history: grid_to_table is a function of the grid it is given; a table made earlier in the same process from ANOTHER grid with the same
+        # shape and the same first/last node on each axis (other interior nodes, other values) leaves no trace
+        if len(east) >= 3 or len(north) >= 3:
+            def bent(ax):
+                ax = np.array(ax, dtype=float)
+                if len(ax) >= 3:
+                    ax[1:-1] = ax[1:-1] + 0.25 * (ax[2:] - ax[1:-1])
+                return ax
+            c2 = {dims[1]: bent(east), dims[0]: bent(north)}
+            try:
+                vd.grid_to_table(xr.Dataset({"w": (tuple(dims), np.arange(len(north) * len(east), dtype=float).reshape(len(north), len(east)) * -3.0)}, coords=c2))
+            except Exception:  # noqa: BLE001
+                pass
         t = C.call(vd.grid_to_table, g)
         return t if C.is_err(t) else _table_out(t)
     if fn == "to1d":
